@@ -130,12 +130,12 @@ Section P.
       end
     else eval c prog f (chain ++ [r]) (prog ty r) st.
   Proof.
-    cbn [get].
+    unfold get. cbn [get_gen]. fold (get c prog).
     destruct (memN r chain); [reflexivity|].
     destruct (oc_on c); [|apply ev_eval].
     destruct (lookup r (ocache st)) as [[ty' v|e]|].
     - destruct (ty' =? ty); [reflexivity|apply ev_eval].
-    - destruct (fix_b c); [apply ev_eval|reflexivity].
+    - destruct (fix_b c); cbn [negb]; [apply ev_eval|reflexivity].
     - rewrite ev_eval. reflexivity.
   Qed.
 
@@ -379,6 +379,64 @@ Section P.
         destruct (do_call_ok fuel cl st Hinv Hcl) as [st1 [E1 I1]]. rewrite E1.
         f_equal. apply IH; [exact I1|exact Ht].
     Qed.
+
+    (** * every history: the state reached by any sequence of read calls *)
+    Fixpoint final_state (fuel : nat) (calls : list call) (st : state) : state :=
+      match calls with
+      | [] => st
+      | cl :: t => final_state fuel t (snd (do_call c prog filters raw appf imgc fuel cl st))
+      end.
+
+    Lemma final_state_inv fuel calls : forall st,
+      Inv st -> fuel_ok fuel calls -> Inv (final_state fuel calls st).
+    Proof.
+      induction calls as [|cl t IH]; intros st Hinv Hf; cbn [final_state]; [exact Hinv|].
+      unfold fuel_ok in Hf. apply Forall_cons_iff in Hf. destruct Hf as [Hcl Ht].
+      destruct (do_call_ok fuel cl st Hinv Hcl) as [st1 [E1 I1]]. rewrite E1. cbn [snd].
+      apply IH; [exact I1|exact Ht].
+    Qed.
+
+    (* an error entry of any kind, planted for any reference, does not disturb the invariant: the fixed
+       [get] never trusts a cached error *)
+    Lemma get_ok_planted_error fuel ty r st r0 k :
+      Inv st -> (rank r < fuel)%nat ->
+      fst (get c prog fuel [] ty r (set_oc st r0 (EErr k))) = D ty r.
+    Proof.
+      intros Hinv Hr.
+      destruct (get_ok fuel [] ty r (set_oc st r0 (EErr k)) (Inv_set_oc_err st r0 k Hinv) Hr) as [st1 [E1 _]];
+        [intros x []|].
+      rewrite E1. reflexivity.
+    Qed.
+
+    (* a value entry of another type is not served either; it only has to be right for its own type *)
+    Lemma get_ok_planted_value fuel ty r st r0 ty0 v0 :
+      Inv st -> (rank r < fuel)%nat -> D ty0 r0 = Ok v0 ->
+      fst (get c prog fuel [] ty r (set_oc st r0 (EOk ty0 v0))) = D ty r.
+    Proof.
+      intros Hinv Hr Hv.
+      destruct (get_ok fuel [] ty r (set_oc st r0 (EOk ty0 v0)) (Inv_set_oc_ok st r0 ty0 v0 Hinv Hv) Hr)
+        as [st1 [E1 _]]; [intros x []|].
+      rewrite E1. reflexivity.
+    Qed.
+
+    (* the partial-decode path of raw_image_data (image filters left over) does not touch the stream cache *)
+    Lemma raw_image_bypass r st :
+      skipn (match rposition is_image_filter (filters r) with Some i => i | None => length (filters r) end)
+            (filters r) <> [] ->
+      snd (raw_image_data c filters raw appf r st) = st.
+    Proof.
+      unfold raw_image_data. cbv zeta.
+      generalize (match rposition is_image_filter (filters r) with
+                  | Some i => i
+                  | None => length (filters r)
+                  end).
+      intros e Hne.
+      destruct (skipn e (filters r)) as [|f t] eqn:Hsk; [contradiction Hne; reflexivity|].
+      cbn [fix_a cfg_fixed].
+      destruct (sdecode raw appf r (firstn e (filters r))) as [data|e0|s|]; try reflexivity.
+      destruct t as [|f' t']; [|reflexivity].
+      destruct (memN f cache_image_codecs); reflexivity.
+    Qed.
   End C.
 
   Lemma answer_alone_spec fuel cl :
@@ -446,6 +504,103 @@ Proof.
   rewrite !nth_map_last. reflexivity.
 Qed.
 
+(** the typed-load dimension, for every history: whatever was read before (as whatever types, with whatever
+    outcomes: values, errors of any kind, re-loads), get::<ty>(r) returns the denotation of loading r AS ty,
+    which is also what the uncached resolver returns for that type *)
+Theorem cache_typed_get_any_history :
+  forall (prog : tytag -> ref -> comp) (filters : ref -> list filt) (raw : ref -> outcome)
+         (appf : filt -> val -> outcome) (imgc : ref -> filt -> val -> outcome)
+         (rank : ref -> nat) (oc sc : bool) (fuel : nat) (history : list call) (ty : tytag) (r : ref),
+    acyclic prog rank -> fuel_ok rank fuel history -> (rank r < fuel)%nat ->
+    let st := final_state prog filters raw appf imgc oc sc fuel history init in
+    fst (get (cfg_fixed oc sc) prog fuel [] ty r st) = D prog rank ty r /\
+    fst (get no_cache prog fuel [] ty r init) = D prog rank ty r.
+Proof.
+  intros prog filters raw appf imgc rank oc sc fuel history ty r Hac Hf Hr st.
+  assert (Hinv : Inv prog filters raw appf rank st).
+  { apply (final_state_inv prog filters raw appf imgc rank oc sc Hac fuel history init);
+      [apply Inv_init|exact Hf]. }
+  split.
+  - destruct (get_ok prog filters raw appf rank oc sc Hac fuel [] ty r st Hinv Hr) as [st1 [E1 _]];
+      [intros x []|].
+    rewrite E1. reflexivity.
+  - change no_cache with (cfg_fixed false false).
+    destruct (get_ok prog filters raw appf rank false false Hac fuel [] ty r init
+                     (Inv_init prog filters raw appf rank) Hr) as [st1 [E1 _]]; [intros x []|].
+    rewrite E1. reflexivity.
+Qed.
+
+(** cached errors are never trusted: after any history, an error entry of ANY kind planted under ANY
+    reference (what an earlier load as another type, a concurrent load, or a retried load may have left
+    there) leaves every typed answer unchanged *)
+Theorem cache_error_entries_irrelevant :
+  forall (prog : tytag -> ref -> comp) (filters : ref -> list filt) (raw : ref -> outcome)
+         (appf : filt -> val -> outcome) (imgc : ref -> filt -> val -> outcome)
+         (rank : ref -> nat) (oc sc : bool) (fuel : nat) (history : list call) (ty : tytag) (r r0 : ref) (k : N),
+    acyclic prog rank -> fuel_ok rank fuel history -> (rank r < fuel)%nat ->
+    let st := final_state prog filters raw appf imgc oc sc fuel history init in
+    fst (get (cfg_fixed oc sc) prog fuel [] ty r (set_oc st r0 (EErr k))) = D prog rank ty r.
+Proof.
+  intros prog filters raw appf imgc rank oc sc fuel history ty r r0 k Hac Hf Hr st.
+  apply (get_ok_planted_error prog filters raw appf rank oc sc Hac); [|exact Hr].
+  apply (final_state_inv prog filters raw appf imgc rank oc sc Hac fuel history init);
+    [apply Inv_init|exact Hf].
+Qed.
+
+(** a value cached as one type is never served as another: the entry only has to be right for its own type *)
+Theorem cache_value_entries_typed :
+  forall (prog : tytag -> ref -> comp) (filters : ref -> list filt) (raw : ref -> outcome)
+         (appf : filt -> val -> outcome) (imgc : ref -> filt -> val -> outcome)
+         (rank : ref -> nat) (oc sc : bool) (fuel : nat) (history : list call) (ty ty0 : tytag) (r r0 : ref) (v0 : val),
+    acyclic prog rank -> fuel_ok rank fuel history -> (rank r < fuel)%nat ->
+    D prog rank ty0 r0 = Ok v0 ->
+    let st := final_state prog filters raw appf imgc oc sc fuel history init in
+    fst (get (cfg_fixed oc sc) prog fuel [] ty r (set_oc st r0 (EOk ty0 v0))) = D prog rank ty r.
+Proof.
+  intros prog filters raw appf imgc rank oc sc fuel history ty ty0 r r0 v0 Hac Hf Hr Hv st.
+  apply (get_ok_planted_value prog filters raw appf rank oc sc Hac); [|exact Hr|exact Hv].
+  apply (final_state_inv prog filters raw appf imgc rank oc sc Hac fuel history init);
+    [apply Inv_init|exact Hf].
+Qed.
+
+(** the stream cache (keyed by the reference only) holds nothing but full decodes, after every history; the
+    partial-decode path of raw_image_data leaves it untouched and returns the pure split decode *)
+Theorem cache_stream_entries_full :
+  forall (prog : tytag -> ref -> comp) (filters : ref -> list filt) (raw : ref -> outcome)
+         (appf : filt -> val -> outcome) (imgc : ref -> filt -> val -> outcome)
+         (rank : ref -> nat) (oc sc : bool) (fuel : nat) (history : list call) (r : ref) (x : outcome),
+    acyclic prog rank -> fuel_ok rank fuel history ->
+    let st := final_state prog filters raw appf imgc oc sc fuel history init in
+    lookup r (scache st) = Some x -> x = sdecode raw appf r (filters r).
+Proof.
+  intros prog filters raw appf imgc rank oc sc fuel history r x Hac Hf st Hl.
+  assert (Hinv : Inv prog filters raw appf rank st).
+  { apply (final_state_inv prog filters raw appf imgc rank oc sc Hac fuel history init);
+      [apply Inv_init|exact Hf]. }
+  destruct Hinv as [_ Hs]. exact (Hs r x Hl).
+Qed.
+
+Theorem cache_partial_decode :
+  forall (prog : tytag -> ref -> comp) (filters : ref -> list filt) (raw : ref -> outcome)
+         (appf : filt -> val -> outcome) (imgc : ref -> filt -> val -> outcome)
+         (rank : ref -> nat) (oc sc : bool) (fuel : nat) (history : list call) (r : ref),
+    acyclic prog rank -> fuel_ok rank fuel history ->
+    let st := final_state prog filters raw appf imgc oc sc fuel history init in
+    fst (raw_image_data (cfg_fixed oc sc) filters raw appf r st) = raw_image_pure filters raw appf r /\
+    (skipn (match rposition is_image_filter (filters r) with Some i => i | None => length (filters r) end)
+           (filters r) <> [] ->
+     snd (raw_image_data (cfg_fixed oc sc) filters raw appf r st) = st).
+Proof.
+  intros prog filters raw appf imgc rank oc sc fuel history r Hac Hf st.
+  assert (Hinv : Inv prog filters raw appf rank st).
+  { apply (final_state_inv prog filters raw appf imgc rank oc sc Hac fuel history init);
+      [apply Inv_init|exact Hf]. }
+  split.
+  - destruct (raw_image_ok prog filters raw appf rank oc sc r st Hinv) as [st1 [E1 _]].
+    rewrite E1. reflexivity.
+  - apply raw_image_bypass.
+Qed.
+
 Theorem cache_D_unfold :
   forall prog rank ty r, acyclic prog rank -> D prog rank ty r = evalD prog rank (prog ty r).
 Proof.
@@ -505,3 +660,30 @@ Proof.
          (fun _ => Ok 0), (fun _ d => Ok d), (fun _ _ d => Ok d), 5%nat, [CGet 1 3; CGet 2 3].
   vm_compute. intros H. discriminate H.
 Qed.
+
+(** * the class of changes "serve a cached error of some kinds" is wrong for every kind
+
+    [get_gen serve] is [get] with the decision "return an error found in the cache (not computed by this call)
+    as it is?" left open.  The code answers no for every kind.  Whatever the kinds for which a variant answers
+    yes — missing object, wrong type, parse error, recursion, … — it breaks the property: reference 3 below fails
+    with kind k when it is loaded as type 1 and loads as type 2; after the first load the second one is served
+    the error. *)
+Definition kind_prog (k : N) (ty : tytag) (r : ref) : comp := if ty =? 1 then Ret (Err k) else Ret (Ok 7).
+
+Theorem serving_cached_errors_refuted : forall (serve : N -> bool) (k : N),
+  serve k = true ->
+  exists (prog : tytag -> ref -> comp) (rank : ref -> nat) (fuel : nat) (ty1 ty2 : tytag) (r : ref),
+    acyclic prog rank /\
+    let first := get_gen (cfg_fixed true true) prog serve fuel [] ty1 r init in
+    fst (get_gen (cfg_fixed true true) prog serve fuel [] ty2 r (snd first))
+    <> fst (get no_cache prog fuel [] ty2 r init).
+Proof.
+  intros serve k Hk.
+  exists (kind_prog k), (fun _ => O), 2%nat, 1, 2, 3.
+  split; [intros ty r; unfold kind_prog; destruct (ty =? 1); exact I|].
+  cbv. rewrite Hk. discriminate.
+Qed.
+
+(* ... and the code's choice is the one the theorems are about *)
+Lemma get_is_get_gen_never : forall c prog, fix_b c = true -> get c prog = get_gen c prog (fun _ => false).
+Proof. intros c prog H. unfold get. rewrite H. reflexivity. Qed.
